@@ -194,11 +194,12 @@ func SNP(golden *epb.VMGoldenMeasurement, opts *SNPOptions) error {
 		}
 		var measure []byte
 		var ok bool
-		if opts.ExpectedLaunchVMSAs == 1 {
-			measure = snp.SvsmMeasurement
-			ok = len(measure) > 0
-		} else {
-			measure, ok = m[opts.ExpectedLaunchVMSAs]
+		measure, ok = m[opts.ExpectedLaunchVMSAs]
+		// An SVSM launch has a single VMSA whatever the vCPU count, so the SVSM measurement is
+		// also a measurement for 1 launch VMSA.
+		if opts.ExpectedLaunchVMSAs == 1 && len(snp.SvsmMeasurement) > 0 &&
+			(!ok || bytes.Equal(snp.SvsmMeasurement, opts.Measurement)) {
+			measure, ok = snp.SvsmMeasurement, true
 		}
 		if !ok {
 			return fmt.Errorf("no golden measurement for %d launch VMSAs", opts.ExpectedLaunchVMSAs)
